@@ -454,6 +454,27 @@ func mutants(r *gen.Rand, g []*types.Transaction, signers []txw.Signer) []mutant
 		})
 		fm("SigNil", func(t *types.Transaction) { t.Signature = nil })
 	}
+	// plausible-but-wrong links: FullHash instead of Hash, own hash, hash of the signed encoding
+	if n >= 2 {
+		k := r.Intn(n - 1)
+		c := cp()
+		c[k].Next = c[k+1].FullHash()
+		add("link-next-fullhash", c)
+		c = cp()
+		c[k].Next = c[k].Hash()
+		add("link-next-own-hash", c)
+		c = cp()
+		fh := c[0].FullHash()
+		for _, t := range c {
+			t.Header = fh
+		}
+		add("link-header-fullhash", c)
+		if n >= 3 {
+			c = cp()
+			c[0].Next = c[2].Hash()
+			add("link-next-skips-one", c)
+		}
+	}
 	// header replaced everywhere by another value (consistent among members)
 	{
 		c := cp()
@@ -584,6 +605,15 @@ func scenario(r *gen.Rand, signers []txw.Signer, deep bool) {
 		for _, t := range g {
 			f, _ := t.GetRealFee(e.minfee)
 			total += f
+			// the required fee by its definition: one fee unit per started 1000 bytes of the encoding
+			// (+300 bytes for a missing signature), computed without the code under test
+			sz := len(types.Encode(t))
+			if t.Signature == nil {
+				sz += 300
+			}
+			if want := int64(sz/1000+1) * e.minfee; f != want && sz <= int(types.MaxTxSize) {
+				out.Pred("C17|GetRealFee|differs-from-size-formula", fmt.Sprintf("minfee=%d size=%d got=%d want=%d", e.minfee, sz, f, want))
+			}
 		}
 		c := txw.CopyAll(g)
 		c[0].Fee = total - 1
@@ -771,7 +801,7 @@ func main() {
 		opGetTxGroup(p)
 		opCheck1(randEnv(r), p)
 	}
-	for i := 0; i < gen.Scale(40, 600); i++ {
+	for i := 0; i < gen.Scale(25, 300); i++ {
 		scenario(r, signers, i%8 == 0)
 	}
 	_ = bytes.Equal
